@@ -238,6 +238,64 @@ def sc_skclf_unfittable(d, n, classes):
     d.witness(0 < len(lab) < n, "some_unlabeled")
 
 
+# ---------------------------------------------------------------- partial_fit streams: batches without labels
+def sc_partial_stream(d, kind, n1, n2):
+    """partial_fit on a batch with labels, then on a batch whose labels are all missing (adding unlabeled samples), then on
+    another labeled batch: the wrapped estimator is the SAME incremental model throughout, it is handed exactly the labeled
+    rows of the labeled batches, and the unlabeled batch neither reaches it nor un-fits the wrapper"""
+    from skactiveml.classifier import SklearnClassifier
+    import skactiveml.regressor as R
+    clf = kind == "classifier"
+    if clf:
+        w = SklearnClassifier(make_recording_classifier(d.np), classes=CLASSES[:2])
+    else:
+        w = (R.SklearnNormalRegressor if kind == "normal_regressor" else R.SklearnRegressor)(make_recording_regressor(d.np))
+    x1, X1, yv1, y1, _, _, lab1 = _data_named(d, "a", n1, clf)
+    x3, X3, yv3, y3, _, _, lab3 = _data_named(d, "c", n1, clf)
+    if not lab1 or not lab3:
+        if d.sym:
+            raise core.PathAbort("the labeled batches need a label")
+        return
+    X2 = d.arr([[d.fl(f"b{i}")] for i in range(n2)], shape=(n2, 1))
+    y2 = d.arr([NAN] * n2)
+    w.partial_fit(X1, y1)
+    est = w.estimator_
+    log1 = list(getattr(est, "fit_log_", []))
+    d.prove(len(log1) == 1, "first_batch_reaches_the_estimator")
+    try:
+        w.partial_fit(X2, y2)
+    except (core.Unencodable, core.PathAbort):
+        raise
+    except Exception as e:
+        d.prove(False, "unlabeled_batch_is_accepted", info=dict(error=repr(e)[:160]))
+        return
+    d.prove(w.estimator_ is est, "unlabeled_batch_keeps_the_fitted_estimator")
+    d.prove(len(getattr(w.estimator_, "fit_log_", [])) == 1, "unlabeled_batch_does_not_reach_the_estimator")
+    if clf:
+        d.prove(getattr(w, "is_fitted_", None) is True, "unlabeled_batch_does_not_unfit_the_wrapper")
+    w.partial_fit(X3, y3)
+    d.prove(w.estimator_ is est, "partial_fit_continues_the_same_estimator")
+    log = getattr(w.estimator_, "fit_log_", [])
+    d.prove(len(log) == 2, "every_labeled_batch_reaches_the_estimator_once", info=dict(calls=len(log)))
+    if len(log) == 2:
+        d.prove(d.eq_arr(log[1][0], d.arr([[x3[i]] for i in lab3], shape=(len(lab3), 1))), "estimator_sees_exactly_labeled_rows")
+    d.witness(True, "some_unlabeled")
+
+
+def _data_named(d, tag, n, classification):
+    xs = [d.fl(f"x{tag}{i}") for i in range(n)]
+    X = d.arr([[x] for x in xs], shape=(n, 1))
+    if classification:
+        idx = [d.choose(f"label{tag}{i}", [-1, 0, 1]) for i in range(n)]
+        yv = [NAN if k < 0 else CLASSES[k] for k in idx]
+        lab = [i for i in range(n) if idx[i] >= 0]
+    else:
+        miss = [d.choose(f"missing{tag}{i}", [0, 1]) for i in range(n)]
+        yv = [NAN if miss[i] else d.fl(f"y{tag}{i}") for i in range(n)]
+        lab = [i for i in range(n) if not miss[i]]
+    return xs, X, yv, d.arr(yv), None, None, lab
+
+
 # ---------------------------------------------------------------- AnnotatorLogisticRegression (two EM iterations)
 class _OneStepResult:
     def __init__(self, x):
@@ -263,7 +321,7 @@ _stubs.MODULE_STUBS[(_ALR, "minimize")] = _one_gradient_step
 _stubs.MODULE_STUBS[(_ALR, "softmax")] = _sym_softmax
 
 
-def sc_alr(d, n, A):
+def sc_alr(d, n, A, weights=False):
     """AnnotatorLogisticRegression (max_iter=2: majority-vote initialisation, one M-step, one full E/M step): samples
     without any label do not enter the fit - weights and confusion matrices equal those of a fit on the rows that carry
     at least one label"""
@@ -279,10 +337,12 @@ def sc_alr(d, n, A):
     X = d.arr([[x] for x in xs], shape=(n, 1))
     y = d.arr([[NAN if k < 0 else float(k) for k in r] for r in idx], shape=(n, A))
     kw = dict(classes=[0, 1], max_iter=2, fit_intercept=False, random_state=0)
+    ws = [[d.fl(f"w{i}_{a}", lo=0.25, hi=4.0) for a in range(A)] for i in range(n)] if weights else None
     try:
-        full = AnnotatorLogisticRegression(**kw).fit(X, y)
+        full = AnnotatorLogisticRegression(**kw).fit(X, y, None if ws is None else d.arr(ws, shape=(n, A)))
         sub = AnnotatorLogisticRegression(**kw).fit(d.arr([[xs[i]] for i in rows], shape=(len(rows), 1)),
-                                                    d.arr([[NAN if k < 0 else float(k) for k in idx[i]] for i in rows], shape=(len(rows), A)))
+                                                    d.arr([[NAN if k < 0 else float(k) for k in idx[i]] for i in rows], shape=(len(rows), A)),
+                                                    None if ws is None else d.arr([ws[i] for i in rows], shape=(len(rows), A)))
     except (core.Unencodable, core.PathAbort):
         raise
     except Exception as e:
@@ -359,7 +419,11 @@ HARNESSES.append(dual_harness(
     lambda tier: [dict(n=n, classes=cs) for n in _ns(tier) for cs in ([0, 1], [-1, 1], [1, -1, 0])],
     [UNITS[0], UNITS[7], "skactiveml.classifier._wrapper:SklearnClassifier.predict_proba"], required_witnesses=("some_unlabeled",)))
 HARNESSES.append(dual_harness(
-    "annotator_logistic_regression", sc_alr, lambda tier: [dict(n=2, A=2)] + ([dict(n=3, A=2)] if tier != "quick" else []),
+    "partial_fit_stream", sc_partial_stream,
+    lambda tier: [dict(kind=k, n1=2, n2=n2) for k in ("classifier", "regressor", "normal_regressor") for n2 in ((1,) if tier == "quick" else (1, 2))],
+    [UNITS[0], UNITS[1]], required_witnesses=("some_unlabeled",)))
+HARNESSES.append(dual_harness(
+    "annotator_logistic_regression", sc_alr, lambda tier: [dict(n=2, A=2), dict(n=2, A=2, weights=True)] + ([dict(n=3, A=2)] if tier != "quick" else []),
     ["skactiveml.classifier.multiannotator._annotator_logistic_regression:AnnotatorLogisticRegression.fit",
      "skactiveml.utils._aggregation:compute_vote_vectors"], required_witnesses=("some_unlabeled",), product_abstraction=True, resample=10))
 HARNESSES.append(dual_harness(
